@@ -19,12 +19,13 @@ Init == n \in 1..Len(Recs) /\ done = FALSE
 
 Want(r, v) == RootTree(r.cls, r.tag, v, r.ver)
 
-ValueFails(r) ==
+ValueFails(r, wv) ==
     IF ~r.enc_ok THEN {<<"C01_encodable", r.err>>}
     ELSE IF ~r.dec_ok THEN {<<"C01_decodable", r.err>>}
     ELSE (IF ~r.dec_typed THEN {<<"C01_roundtrip", "decoded object is not a value of the class: " \o r.err>>}
-          ELSE IF TreeEq(Want(r, r.dec), Want(r, r.val)) THEN {}
-          ELSE {<<"C01_roundtrip", ToString(TreeDiff(Want(r, r.dec), Want(r, r.val)))>>})
+          ELSE LET wd == Want(r, r.dec) IN
+               IF TreeEq(wd, wv) THEN {}
+               ELSE {<<"C01_roundtrip", ToString(TreeDiff(wd, wv))>>})
          \cup (IF ~r.re_ok THEN {<<"C01_reencode", "decoded object cannot be encoded: " \o r.err>>}
                ELSE IF r.bytes2 = r.bytes THEN {} ELSE {<<"C01_reencode", "re-encoded bytes differ">>})
          \cup (IF r.eq = "unequal" THEN {<<"C01_eq", "the library's own == says decoded # original">>} ELSE {})
@@ -33,24 +34,32 @@ AcceptFails(r) ==
     IF ~r.e1_ok THEN {<<"C01_accepted_unencodable", r.err>>}
     ELSE IF ~r.d2_ok THEN {<<"C01_accepted_undecodable", r.err>>}
     ELSE IF ~r.typed THEN {}
-    ELSE IF TreeEq(Want(r, r.d1), Want(r, r.d2)) THEN {}
-    ELSE {<<"C01_stable", ToString(TreeDiff(Want(r, r.d1), Want(r, r.d2)))>>}
+    ELSE LET w1 == Want(r, r.d1)  w2 == Want(r, r.d2) IN
+         IF TreeEq(w1, w2) THEN {}
+         ELSE {<<"C01_stable", ToString(TreeDiff(w1, w2))>>}
 
-Drift(r) ==
-    IF r.kind # "value" \/ ~r.enc_ok THEN {}
+\* the bytes against the prescribed tree: Enc(tree) = bytes is the fast path (exact for everything but big
+\* integers, whose width KMIP does not fix); otherwise parse and compare up to big-integer width
+Drift(r, wv) ==
+    IF ~r.enc_ok THEN {}
+    ELSE IF Enc(wv) = r.bytes THEN {}
     ELSE LET p == Parse(r.bytes) IN
          IF ~p.ok THEN {"not well-formed TTLV: " \o p.why}
-         ELSE IF TreeEq(p.tree, Want(r, r.val)) THEN {}
-         ELSE {"bytes are not the prescribed tree: " \o ToString(TreeDiff(p.tree, Want(r, r.val)))}
+         ELSE IF TreeEq(p.tree, wv) THEN {}
+         ELSE {"bytes are not the prescribed tree: " \o ToString(TreeDiff(p.tree, wv))}
 
 Next == /\ ~done
-        /\ LET r == Recs[n]
-               ill == IF r.kind = "value" THEN IllRoot(r.cls, r.val, r.ver) ELSE {} IN
-           IF ill # {} THEN PrintT("@M@" \o ToJson([id |-> r.id, ill |-> ill]))
-           ELSE LET f == IF r.kind = "value" THEN ValueFails(r) ELSE AcceptFails(r)
-                    d == Drift(r) IN
-                /\ f # {} => PrintT("@V@" \o ToJson([id |-> r.id, fails |-> f]))
-                /\ d # {} => PrintT("@D@" \o ToJson([id |-> r.id, drift |-> d]))
+        /\ LET r == Recs[n] IN
+           IF r.kind = "value"
+           THEN LET ill == IllRoot(r.cls, r.val, r.ver) IN
+                IF ill # {} THEN PrintT("@M@" \o ToJson([id |-> r.id, ill |-> ill]))
+                ELSE LET wv == Want(r, r.val)
+                         f == ValueFails(r, wv)
+                         d == Drift(r, wv) IN
+                     /\ f # {} => PrintT("@V@" \o ToJson([id |-> r.id, fails |-> f]))
+                     /\ d # {} => PrintT("@D@" \o ToJson([id |-> r.id, drift |-> d]))
+           ELSE LET f == AcceptFails(r) IN
+                f # {} => PrintT("@V@" \o ToJson([id |-> r.id, fails |-> f]))
         /\ done' = TRUE /\ n' = n
 Spec == Init /\ [][Next]_<<n, done>>
 =============================================================================
